@@ -240,3 +240,146 @@ def rand_fs_via_api(rng, depth=3, alphabet=None):
         return go(d - 1) * rng.choice([0, 1, 2])
 
     return go(depth)
+
+
+# ---- API programs as expression trees (JSON-able, replayable) ------------------------
+# Nodes: ["leaf", text, args, kwargs] | ["add", a, b] | ["addstr", a, text] | ["raddstr", text, a]
+#        | ["func", name, a] | ["slice", a, i, j] | ["mul", a, n] | ["cwna", a, kwargs] | ["nwar", a, keys]
+#        | ["rewrap", a, args, kwargs] | ["obs", a, [what...]]  (observe str/len/s/width/hash/repr/eq, return the same object)
+def _rand_spec(rng):
+    a = rand_atts(rng)
+    args, kwargs = [], {}
+    if a[0]:
+        r = rng.random()
+        if r < 0.4:
+            args.append(COLORS[a[0] - 1])
+        elif r < 0.7:
+            kwargs["fg"] = COLORS[a[0] - 1]
+        else:
+            kwargs["fg"] = 29 + a[0]
+    if a[1]:
+        r = rng.random()
+        if r < 0.4:
+            args.append("on_" + COLORS[a[1] - 1])
+        elif r < 0.7:
+            kwargs["bg"] = COLORS[a[1] - 1]
+        else:
+            kwargs["bg"] = 39 + a[1]
+    for s, v in zip(STYLES, a[2:]):
+        if v == 1:
+            if rng.random() < 0.5:
+                args.append(s)
+            else:
+                kwargs[s] = True
+        elif v == 2:
+            kwargs[s] = False
+    rng.shuffle(args)
+    return args, kwargs
+
+
+OBS = ["str", "len", "s", "width", "hash", "repr", "eq"]
+
+
+def rand_expr(rng, depth=3, alphabet=None, p_obs=0.35):
+    def wrap(node):
+        if rng.random() < p_obs:
+            return ["obs", node, rng.sample(OBS, rng.randint(1, 3))]
+        return node
+
+    def go(d):
+        r = rng.random()
+        if d == 0 or r < 0.25:
+            args, kwargs = _rand_spec(rng)
+            return wrap(["leaf", rand_text(rng, 5, alphabet), args, kwargs])
+        if r < 0.45:
+            return wrap(["add", go(d - 1), go(d - 1)])
+        if r < 0.5:
+            return wrap(["addstr", go(d - 1), rand_text(rng, 3, alphabet)])
+        if r < 0.55:
+            return wrap(["raddstr", rand_text(rng, 3, alphabet), go(d - 1)])
+        if r < 0.65:
+            return wrap(["func", rng.choice(COLORS + ["on_" + c for c in COLORS] + STYLES + ["plain"]), go(d - 1)])
+        if r < 0.75:
+            a, b = sorted([rng.randint(0, 8), rng.randint(0, 8)])
+            return wrap(["slice", go(d - 1), a, b])
+        if r < 0.8:
+            return wrap(["mul", go(d - 1), rng.choice([0, 1, 2])])
+        if r < 0.88:
+            _, kwargs = _rand_spec(rng)
+            kw = {k: (v if not isinstance(v, str) else 30 + COLORS.index(v) + (10 if k == "bg" else 0)) for k, v in kwargs.items()}
+            return wrap(["cwna", go(d - 1), kw])
+        if r < 0.94:
+            return wrap(["nwar", go(d - 1), rng.sample(["fg", "bg"] + STYLES, rng.randint(0, 3))])
+        args, kwargs = _rand_spec(rng)
+        return wrap(["rewrap", go(d - 1), args, kwargs])
+
+    return go(depth)
+
+
+def observe(f, what):
+    for w in what:
+        try:
+            if w == "str":
+                str(f)
+            elif w == "len":
+                len(f)
+            elif w == "s":
+                f.s
+            elif w == "width":
+                f.width
+            elif w == "hash":
+                hash(f)
+            elif w == "repr":
+                repr(f)
+            elif w == "eq":
+                f == f.s
+        except Exception:
+            pass
+
+
+def eval_expr(t):
+    k = t[0]
+    if k == "leaf":
+        return fmtstr(t[1], *t[2], **t[3])
+    if k == "add":
+        return eval_expr(t[1]) + eval_expr(t[2])
+    if k == "addstr":
+        return eval_expr(t[1]) + t[2]
+    if k == "raddstr":
+        return t[1] + eval_expr(t[2])
+    if k == "func":
+        return getattr(fmtfuncs, t[1])(eval_expr(t[2]))
+    if k == "slice":
+        return eval_expr(t[1])[t[2]:t[3]]
+    if k == "mul":
+        return eval_expr(t[1]) * t[2]
+    if k == "cwna":
+        return eval_expr(t[1]).copy_with_new_atts(**t[2])
+    if k == "nwar":
+        return eval_expr(t[1]).new_with_atts_removed(*t[2])
+    if k == "rewrap":
+        return fmtstr(eval_expr(t[1]), *t[2], **t[3])
+    if k == "obs":
+        f = eval_expr(t[1])
+        observe(f, t[2])
+        return f
+    raise ValueError("bad expression node %r" % (k,))
+
+
+def expr_size(t):
+    return 1 + sum(expr_size(x) for x in t[1:] if isinstance(x, list) and x and isinstance(x[0], str)
+                   and x[0] in ("leaf", "add", "addstr", "raddstr", "func", "slice", "mul", "cwna", "nwar", "rewrap", "obs"))
+
+
+def shrink_expr(t):
+    """smaller candidate trees"""
+    k = t[0]
+    kids = [i for i, x in enumerate(t) if i > 0 and isinstance(x, list) and x and isinstance(x[0], str)
+            and x[0] in ("leaf", "add", "addstr", "raddstr", "func", "slice", "mul", "cwna", "nwar", "rewrap", "obs")]
+    for i in kids:
+        yield t[i]
+    for i in kids:
+        for c in shrink_expr(t[i]):
+            yield t[:i] + [c] + t[i + 1:]
+    if k == "leaf" and len(t[1]) > 1:
+        yield ["leaf", t[1][:1], t[2], t[3]]
